@@ -55,6 +55,8 @@ type Features struct {
 	PodsOnly    bool // only bare pods (eval CLI)
 	PortDrift   bool // pods of one owner agree on labels but not on container ports (a rollout in progress)
 	Broad       bool // many policies with mostly empty selectors: several policies select the same pods
+	Large       bool // more than a bucket's worth of everything: maps grow, outputs get long
+	DefaultNS   bool // one namespace is `default`, and resources in it may leave the namespace field out
 }
 
 var allKinds = []string{"Deployment", "ReplicaSet", "StatefulSet", "DaemonSet", "Job", "CronJob", "ReplicationController", "Pod"}
@@ -72,6 +74,14 @@ func drawFeatures(r *rng) Features {
 		SharedOwner: r.chance(1, 3),
 	}
 	f.PortDrift = f.SharedOwner && r.chance(1, 3)
+	f.DefaultNS = r.chance(1, 4)
+	if r.chance(1, 10) {
+		f.Large = true
+		f.NNamespaces = 3
+		f.NWorkloads = r.between(10, 16)
+		f.NNetpols = r.between(6, 10)
+		f.NsObjProb = r.between(2, 4)
+	}
 	if r.chance(1, 2) {
 		// overlap profile: few namespaces, many policies whose selectors are mostly empty, so that pods
 		// are governed by several policies at once and cluster-wide / external exposure is common
@@ -498,7 +508,10 @@ func nsDoc(name string, labels map[string]string) Doc {
 // default. Anything outside those rules is a fault that a scenario injects on purpose.
 func genWorld(r *rng, f Features) *World {
 	w := &World{HasNsObj: map[string]bool{}}
-	nss := nsNames[:f.NNamespaces]
+	nss := append([]string{}, nsNames[:f.NNamespaces]...)
+	if f.DefaultNS {
+		nss[len(nss)-1] = "default"
+	}
 	w.NSs = nss
 	for _, ns := range nss {
 		if f.AllNsObjs || r.intn(4) < f.NsObjProb {
@@ -608,6 +621,13 @@ func genWorld(r *rng, f Features) *World {
 					rt.Spec.Port = &routev1.RoutePort{TargetPort: intstr.FromString("p")}
 				}
 				w.Docs = append(w.Docs, toDoc("Route", t.ns, rt.Name, rt))
+			}
+		}
+	}
+	if f.DefaultNS {
+		for i, d := range w.Docs {
+			if d.NS == "default" && r.chance(1, 2) {
+				w.Docs[i].Text = strings.Replace(d.Text, "\n  namespace: default\n", "\n", 1)
 			}
 		}
 	}
